@@ -40,6 +40,7 @@ import (
 
 	"google.golang.org/grpc/codes"
 
+	"github.com/ory/keto/internal/driver/config"
 	"github.com/ory/keto/internal/namespace"
 	"github.com/ory/keto/ketoapi"
 	rts "github.com/ory/keto/proto/ory/keto/relation_tuples/v1alpha2"
@@ -1041,6 +1042,48 @@ func TestC08(t *testing.T) {
 		runtime.GOMAXPROCS(prevProcs)
 	}
 
+	// a namespace removed at run time: relationships of namespace Doc are stored and allowed on every transport;
+	// the namespace list is then replaced by one without Doc while the server keeps running (Config.Set - what a
+	// reload does). From then on Doc is an UNKNOWN namespace: no transport may report allowed (the oracle here is
+	// the statement itself, not the engine behind the server's own mapper). Put back, the answers return.
+	reconfRuns := 0
+	if !timedOut.Load() {
+		s := apih.NewServer(t, apih.Options{Namespaces: c08PlainNamespaces(), Config: map[string]any{"limit.max_read_depth": 50}})
+		c := s.Client()
+		tp := axID("Doc", "reconf-doc", "viewers", "reconf-user")
+		if r := c.Create(tp); r.Status != 201 {
+			panic("c08: reconfiguration family: " + r.String())
+		}
+		trs := c08Transports()
+		d0 := depths[0]
+		phase := func(name string, nss []*namespace.Namespace, wantAllowed bool) {
+			if err := s.Reg.Config(s.Ctx).Set(config.KeyNamespaces, nss); err != nil {
+				panic("c08: reconfiguration family: " + err.Error())
+			}
+			for _, tr := range trs {
+				got := tr.Do(c, tp, d0)
+				reconfRuns++
+				switch {
+				case wantAllowed && got.Kind != "allowed":
+					run.Violation("namespace-reconfiguration:known-namespace-not-allowed:"+tr.Name, fmt.Sprintf("%s of the stored relationship %s in phase %q answers %s", tr.Name, refsem.Key(tp), name, got), map[string]any{"family": "namespace-reconfiguration", "phase": name, "transport": tr.Name})
+				case !wantAllowed && got.Kind == "allowed":
+					run.Violation("namespace-reconfiguration:unknown-namespace-allowed:"+tr.Name, fmt.Sprintf("namespace Doc was removed from the configuration at run time; %s of %s still answers allowed", tr.Name, refsem.Key(tp)), map[string]any{"family": "namespace-reconfiguration", "phase": name, "transport": tr.Name})
+				}
+			}
+		}
+		all := c08PlainNamespaces()
+		var withoutDoc []*namespace.Namespace
+		for _, n := range all {
+			if n.Name != "Doc" {
+				withoutDoc = append(withoutDoc, n)
+			}
+		}
+		phase("configured", all, true)
+		phase("Doc removed", withoutDoc, false)
+		phase("Doc configured again", all, true)
+		phase("Doc removed again", withoutDoc, false)
+	}
+
 	// batch entries under a storage failure: every SQL statement of a batch request fails in turn (generic error
 	// and cancelled query); every entry must then carry an error or be exactly what it is without the failure - a
 	// failure must not come back as a clean decision of the other kind (what the single-check transports answer
@@ -1151,26 +1194,27 @@ func TestC08(t *testing.T) {
 		orc[k] = v
 	}
 	run.Finish(map[string]any{
-		"evaluations":          int(r.evals.Load()) + pairsDone,
-		"request_order_pairs":  pairsDone,
-		"distinct_nontrivial":  len(r.nontriv),
-		"rule":                 "evaluation = one transport answer (or one batch entry) compared with the engine; non-trivial = distinct (state, tuple, max-depth) whose engine decision is allowed, depends on max-depth or is an engine error (unknown namespaces and plain denials are evaluated but not counted), plus distinct (state, transport, batch sequence, max-depth) of length >= 2 that mixes letters or repeats one, plus the max-size / max+1 cases",
-		"requests":             int(r.requests.Load()),
-		"states":               len(states),
-		"query_tuples":         len(queries),
-		"max_depth_values":     len(depths),
-		"single_transports":    len(c08Transports()),
-		"batch_sequences":      len(seqs),
-		"batch_alphabet":       c08LetterNames,
-		"batch_depths":         len(batchDepths),
-		"batch_fault_runs":     faultRuns,
-		"oracle_kinds":         orc,
-		"jobs":                 len(jobs),
-		"jobs_done":            int(done.Load()),
-		"candidate_signatures": sigCount,
-		"unstable_candidates":  unstable,
-		"exhaustive":           !timedOut.Load() && unstable == 0,
-		"workers":              workers,
+		"evaluations":                        int(r.evals.Load()) + pairsDone,
+		"request_order_pairs":                pairsDone,
+		"distinct_nontrivial":                len(r.nontriv),
+		"rule":                               "evaluation = one transport answer (or one batch entry) compared with the engine; non-trivial = distinct (state, tuple, max-depth) whose engine decision is allowed, depends on max-depth or is an engine error (unknown namespaces and plain denials are evaluated but not counted), plus distinct (state, transport, batch sequence, max-depth) of length >= 2 that mixes letters or repeats one, plus the max-size / max+1 cases",
+		"requests":                           int(r.requests.Load()),
+		"states":                             len(states),
+		"query_tuples":                       len(queries),
+		"max_depth_values":                   len(depths),
+		"single_transports":                  len(c08Transports()),
+		"batch_sequences":                    len(seqs),
+		"batch_alphabet":                     c08LetterNames,
+		"batch_depths":                       len(batchDepths),
+		"batch_fault_runs":                   faultRuns,
+		"namespace_reconfiguration_requests": reconfRuns,
+		"oracle_kinds":                       orc,
+		"jobs":                               len(jobs),
+		"jobs_done":                          int(done.Load()),
+		"candidate_signatures":               sigCount,
+		"unstable_candidates":                unstable,
+		"exhaustive":                         !timedOut.Load() && unstable == 0,
+		"workers":                            workers,
 	})
 }
 
